@@ -305,6 +305,7 @@ package dht
 //@   trusted
 
 //@ func (*dht.Server).processPacket
+//@   alias d = pointee($v of github.com/anacrolix/torrent/bencode.Unmarshal)
 //@   requires nonnil: handler(s) && addr != nil && iplen(addr)
 //@   requires unlocked: !held(s.mu)
 //@   modifies types node, bucket, table, time.Time, bep44.Item, krpc.Return, peer_store.InMemory, krpc.NodeAddr, raw:dht/krpc.NodeAddr, transactions.Dispatcher
@@ -469,10 +470,9 @@ package dht
 //@   ensures at-most-k: len(ret) <= k
 //@   ensures all-pass-the-filter: forall j int :: 0 <= j && j < len(ret) ==> passes(filter, ret[j])
 //@   loop 1
-//@     invariant bucket-range: -1 <= bi && bi < 160
+//@     invariant bucket-range: -1 <= $ivar && $ivar < 160
 //@     invariant all-pass-the-filter: forall j int :: 0 <= j && j < len(ret) ==> passes(filter, ret[j])
 //@   loop 2
-//@     invariant bucket-range: 0 <= bi && bi < 160
 //@     invariant all-pass-the-filter: forall j int :: 0 <= j && j < len(ret) ==> passes(filter, ret[j])
 
 //@ func (*dht.Server).closestNodes
@@ -735,7 +735,7 @@ package dht
 //@   callsite (*dht/k-nearest-nodes.Type).Range the-final-result-set: $me == &a.traversal.closest && $f != nil
 //@   ensures one-pass: count("call:(*dht/k-nearest-nodes.Type).Range") == 1
 //@ func (*dht.Announce).announceClosest$1
-//@   requires nonnil: a != nil
+//@   requires nonnil: a != nil && a.server != nil
 //@   requires issuer-usable: issuerok()
 //@   modifies *
 //@   callsite go:(*dht.Announce).announceClosest$1$1 one-announce-for-that-member: $elem == elem && $a == a
@@ -743,7 +743,7 @@ package dht
 //@ func (*dht.Announce).logger
 //@   trusted
 //@ func (*dht.Announce).announceClosest$1$1
-//@   requires nonnil: a != nil
+//@   requires nonnil: a != nil && a.server != nil
 //@   requires issuer-usable: issuerok()
 //@   modifies *
 //@   callsite (*dht.Announce).announcePeer the-member-it-was-spawned-for: $peer == elem && $a == a
